@@ -339,7 +339,7 @@ theorem formatUint_total (n : Nat) (base : Int) (h1 : 2 ≤ base) (h2 : base ≤
     (formatUint n base).noFault = true := by
   unfold formatUint
   have : ¬ ((decide (base < 2) || decide (base > 36)) = true) := by simp; omega
-  simp only [this, if_false]
+  simp only [this]
   rfl
 
 /-- the bits format renderer (tovalue / tojson / display of a binary or raw decode value) is
@@ -395,6 +395,57 @@ theorem dump_unclamped_panics :
     (dump (rawOpts (.obj [("addrbase", .int 99)])) 0).isPanic = true ∧
     (dump (rawOpts .null) 0).isPanic = true := by
   decide
+
+/-! ## previewValue: the truncation of a string preview (preview.go:31-37) -/
+
+/-- `runes[0:StringTruncate]` is never out of range: for EVERY string (any rune count) and every
+    non-negative limit — 0 (off), 1, the rune count itself, one more, one less, 2^31 -/
+theorem preview_truncate_total (runeLen : Nat) (st : Int) (h : 0 ≤ st) :
+    (previewTruncate runeLen st).noFault = true := by
+  unfold previewTruncate goSlicePrefix
+  split
+  · rename_i hc
+    simp only [Bool.and_eq_true, bne_iff_ne, ne_eq, decide_eq_true_eq, gt_iff_lt] at hc
+    have : ¬ ((decide (st < 0) || decide (st > (runeLen : Int))) = true) := by simp; omega
+    simp only [this]
+    rfl
+  · rfl
+
+/-- … in particular with the string_truncate of ANY option object (the clamp makes it ≥ 0) -/
+theorem preview_truncate_total_options (v : JV) (runeLen : Nat) :
+    (previewTruncate runeLen (optionsFromValue v).stringTruncate).noFault = true :=
+  preview_truncate_total runeLen _ (options_clamped v).2.2.1
+
+/-- what the preview keeps: all runes, or exactly the limit -/
+theorem preview_truncate_value (runeLen : Nat) (st : Int) (h : 0 ≤ st) :
+    previewTruncate runeLen st = .ok (if st != 0 && (runeLen : Int) > st then st.toNat else runeLen) := by
+  unfold previewTruncate goSlicePrefix
+  by_cases hraw : (st != 0 && decide ((runeLen : Int) > st)) = true
+  · have hc := hraw
+    simp only [Bool.and_eq_true, bne_iff_ne, ne_eq, decide_eq_true_eq, gt_iff_lt] at hc
+    have : (decide (st < 0) || decide (st > (runeLen : Int))) = false := by simp; omega
+    simp [hraw, this]
+  · simp [hraw]
+
+/-- the rune / byte distinction: with the test on the BYTE length (seeded change S2-C13-1) the
+    slice IS out of range as soon as runes < limit < bytes — 30 x "å" (60 bytes, 30 runes) with
+    the default string_truncate 50; and the byte test is total only for strings whose byte and
+    rune counts coincide below the limit (ASCII) -/
+theorem preview_byte_test_panics :
+    previewTruncateByteTest 60 30 50 = .panic "runtime error: slice bounds out of range" ∧
+    previewTruncate 30 50 = .ok 30 ∧
+    runeCount (List.replicate 30 [195, 165]).flatten = 30 ∧ (List.replicate 30 [195, 165]).flatten.length = 60 := by
+  decide
+
+theorem preview_byte_test_not_total :
+    ¬ ∀ byteLen runeLen st, runeLen ≤ byteLen → 0 ≤ st → (previewTruncateByteTest byteLen runeLen st).noFault = true := by
+  intro h
+  have := h 60 30 50 (by decide) (by decide)
+  revert this
+  decide
+
+/-- a negative limit would be out of range as well: the `max(0, StringTruncate)` clamp is needed -/
+theorem preview_unclamped_negative_panics : (previewTruncate 3 (-1)).isPanic = true := by decide
 
 /-! ## _stdio_read -/
 
